@@ -225,8 +225,9 @@ def shrink(ctx, it, params):
 
 def describe(ctx, cov, items, plans, results):
     cov['rule'] = ('one evaluation = one run of the real abipkgdiff main() on a seeded package pair (1-24 binaries per side, removals, additions, changed and unchanged pairs, '
-                   'directories or tar archives) under one seeded schedule; exit status, "changes of" sections and removed/added lists are compared with the reference model '
-                   'computed from abidiff runs on each matched pair; distinct = distinct (package pair, schedule hash)')
+                   'directories, tar archives or Debian packages, with or without split debug info in --d1/--d2 packages) under one seeded schedule; exit status, "changes of" sections and removed/added lists are compared with the reference model '
+                   'computed from abidiff runs on each matched pair; torn-archive runs hand the tool a fragment of one archive and only ask that it never exits 0 when tar fails on the '
+                   'fragment and the packages differ; distinct = distinct (package pair, schedule hash or fragment)')
     cov['workloads'] = {n: {'files': len(it['wl']['files']), 'format': it['wl']['format'], 'model': it['model']} for n, it in list(items.items())[:25]}
     cov['probes'] = {'workloads_with_removed_binary': sum(1 for it in items.values() if it['model']['removed']),
                      'workloads_with_removed_binary_and_all_pairs_clean': sum(1 for it in items.values() if it['model']['removed'] and not it['model']['sections']),
@@ -243,6 +244,7 @@ def describe(ctx, cov, items, plans, results):
                      'model_statuses_seen': sorted(set(it['model']['status'] for it in items.values()))}
     cov['real_vs_stub'] = {'real': ['tools/abipkgdiff.cc main() (comparison queue, comparison_done_notify, removed/added accounting), tools/abidiff.cc main() as per-pair oracle, compiled from the working tree'],
                            'stub': ['blocking semantics of pthread mutex/condvar/join (SIM-T model)', 'sysconf(_SC_NPROCESSORS_ONLN)', 'mkdtemp suffix'],
+                           'real_helpers': 'tar, dpkg, rm, mkdir run for real through system() (serialised by the scheduler as one step of the calling thread)',
                            'model': 'vlib/pkgsim.py: model() - a dozen lines'}
 
 
